@@ -725,6 +725,8 @@ ALPHA2 = [["a", "b"], ["b", "c"], ["a", "c"]]
 ALPHA3 = [["a", "b", "c"], ["a", "b", "d"], ["b", "c", "d"]]
 # two-letter alphabets with multi-byte letters: 2-byte + 4-byte, 1 + 4, 2 + 3
 ALPHAMB = [["é", "\U0001d4b3"], ["a", "\U0001d4b3"], ["é", "€"]]
+# one ASCII letter + two supplementary-plane letters (adjacent code points / far apart / last plane)
+ASTRAL = [["a", "\U0001f600", "\U0001f601"], ["b", "\U00010000", "\U0002a6d6"], ["a", "\uffff", "\U0010ffff"]]
 
 
 def subsets(words):
@@ -774,6 +776,17 @@ def run(ctx):
         mbsubs = [x for x in mbsubs if len(x) in (0, 1, 2, 5, 6)]
     for lex in mbsubs:
         add("multibyte-subsets", amb, lex, qmb, 32)
+    # D: letters outside the Basic Multilingual Plane next to each other in
+    # code point order (stepping from one label to the next greater one
+    # crosses 0xFFFF) plus one ASCII letter: full lexicon of length <=3 and
+    # every subset of the short words
+    astral = ASTRAL[seed % len(ASTRAL)]
+    qas = all_words(astral, 4)
+    add("astral-full", astral, all_words(astral, 3, 1), qas, 16)
+    for lex in subsets(all_words(astral[1:], 2, 1)):
+        if quick and len(lex) not in (1, 2, 6):
+            continue
+        add("astral-subsets", astral, lex, qas, 64)
     # B: the full lexicon of all words of length <=4 over three letters
     full3 = all_words(a3, 4, 1)
     q3 = all_words(a3, MAXLEN_Q)
@@ -793,7 +806,7 @@ def run(ctx):
                 for ws in chunks(qa, 32):
                     tasks.append({"family": "sparse3", "alpha": a2, "lexicon": list(c), "seed": seed,
                                   "layouts": base_lays, "words": ws, "apis": all_apis})
-    ctx.extra["alphabets"] = {"subsets": a2, "full3": a3, "multibyte": amb}
+    ctx.extra["alphabets"] = {"subsets": a2, "full3": a3, "multibyte": amb, "astral": astral}
     ctx.extra["lexicons"] = {"subsets": len(subs), "full3": 1, "multibyte-full": 1,
                              "multibyte-subsets": len(mbsubs), "sparse3": n_sparse}
     ctx.extra["layouts"] = lays
